@@ -236,84 +236,7 @@ func c42Names(c *core.Ctx, b core.Batch) {
 	n := c.Scale(400, 8000)
 	for i := 0; i < n; i++ {
 		r := c.Rng(uint64(i))
-		syn := []string{"proto2", "proto3", "editions"}[i%3]
-		fdp := &descriptorpb.FileDescriptorProto{Name: proto.String(fmt.Sprintf("c42/b%d_%d.proto", b.N, i)), Package: proto.String("c42pkg"), Syntax: proto.String(syn),
-			Options: &descriptorpb.FileOptions{GoPackage: proto.String("example.com/c42/p")}}
-		if syn == "editions" {
-			fdp.Edition = descriptorpb.Edition_EDITION_2023.Enum()
-		}
-		nmsg := 1 + r.Intn(3)
-		for mi := 0; mi < nmsg; mi++ {
-			m := &descriptorpb.DescriptorProto{Name: proto.String([]string{"M", "Msg", "M_x", "Get", "M1"}[mi%5] + fmt.Sprint(mi))}
-			used := map[string]bool{}
-			nf := 2 + r.Intn(9)
-			pick := func() string {
-				for t := 0; t < 50; t++ {
-					s := c42Pool[r.Intn(len(c42Pool))]
-					if r.Chance(1, 6) {
-						s = gen.RandIdent(r)
-					}
-					if !used[s] {
-						used[s] = true
-						return s
-					}
-				}
-				return ""
-			}
-			num := int32(1)
-			noneof := r.Intn(3)
-			for oi := 0; oi < noneof; oi++ {
-				on := pick()
-				if on == "" {
-					break
-				}
-				m.OneofDecl = append(m.OneofDecl, &descriptorpb.OneofDescriptorProto{Name: proto.String(on)})
-			}
-			addField := func(name string, oneof int) {
-				f := &descriptorpb.FieldDescriptorProto{Name: proto.String(name), Number: proto.Int32(num), Label: descriptorpb.FieldDescriptorProto_LABEL_OPTIONAL.Enum(), Type: descriptorpb.FieldDescriptorProto_TYPE_INT32.Enum(), JsonName: proto.String(gen.JSONCamel(name))}
-				num++
-				switch r.Intn(5) {
-				case 0:
-					f.Type = descriptorpb.FieldDescriptorProto_TYPE_STRING.Enum()
-				case 1:
-					if oneof < 0 {
-						f.Label = descriptorpb.FieldDescriptorProto_LABEL_REPEATED.Enum()
-					}
-				case 2:
-					f.Type = descriptorpb.FieldDescriptorProto_TYPE_MESSAGE.Enum()
-					f.TypeName = proto.String(".c42pkg." + m.GetName())
-				}
-				if oneof >= 0 {
-					f.OneofIndex = proto.Int32(int32(oneof))
-				}
-				m.Field = append(m.Field, f)
-			}
-			for fi := 0; fi < nf; fi++ {
-				if s := pick(); s != "" {
-					addField(s, -1)
-				}
-			}
-			for oi := range m.OneofDecl {
-				for k := 0; k < 1+r.Intn(2); k++ {
-					s := pick()
-					if s == "" {
-						s = fmt.Sprintf("fallback_member_%d_%d", oi, k)
-					}
-					addField(s, oi)
-				}
-			}
-			// nested types named like oneof wrapper types / fields
-			if r.Chance(1, 2) && len(m.Field) > 0 {
-				nn := strs.GoCamelCase(m.Field[r.Intn(len(m.Field))].GetName())
-				if token.IsIdentifier(nn) {
-					m.NestedType = append(m.NestedType, &descriptorpb.DescriptorProto{Name: proto.String(nn)})
-				}
-			}
-			if r.Chance(1, 3) {
-				m.EnumType = append(m.EnumType, &descriptorpb.EnumDescriptorProto{Name: proto.String("E" + fmt.Sprint(mi)), Value: []*descriptorpb.EnumValueDescriptorProto{{Name: proto.String("E" + fmt.Sprint(mi) + "_ZERO"), Number: proto.Int32(0)}, {Name: proto.String("FOO"), Number: proto.Int32(1)}}})
-			}
-			fdp.MessageType = append(fdp.MessageType, m)
-		}
+		fdp := c42NameSchema(r, fmt.Sprintf("c42/b%d_%d.proto", b.N, i), i)
 		if tc != nil {
 			c42TypeCheck(c, tc, fdp)
 		}
@@ -454,4 +377,88 @@ func c42Witness(i int, members []string) *descriptorpb.FileDescriptorProto {
 	}
 	return &descriptorpb.FileDescriptorProto{Name: proto.String(fmt.Sprintf("c42/witness%d.proto", i)), Package: proto.String("c42pkg"), Syntax: proto.String("proto2"),
 		Options: &descriptorpb.FileOptions{GoPackage: proto.String("example.com/c42/p")}, MessageType: []*descriptorpb.DescriptorProto{m}}
+}
+
+// c42NameSchema draws a file whose messages take their field and oneof names
+// from the collision-seeking pool.
+func c42NameSchema(r *core.Rand, name string, i int) *descriptorpb.FileDescriptorProto {
+	syn := []string{"proto2", "proto3", "editions"}[i%3]
+	fdp := &descriptorpb.FileDescriptorProto{Name: proto.String(name), Package: proto.String("c42pkg"), Syntax: proto.String(syn),
+		Options: &descriptorpb.FileOptions{GoPackage: proto.String("example.com/c42/p")}}
+	if syn == "editions" {
+		fdp.Edition = descriptorpb.Edition_EDITION_2023.Enum()
+	}
+	nmsg := 1 + r.Intn(3)
+	for mi := 0; mi < nmsg; mi++ {
+		m := &descriptorpb.DescriptorProto{Name: proto.String([]string{"M", "Msg", "M_x", "Get", "M1"}[mi%5] + fmt.Sprint(mi))}
+		used := map[string]bool{}
+		nf := 2 + r.Intn(9)
+		pick := func() string {
+			for t := 0; t < 50; t++ {
+				s := c42Pool[r.Intn(len(c42Pool))]
+				if r.Chance(1, 6) {
+					s = gen.RandIdent(r)
+				}
+				if !used[s] {
+					used[s] = true
+					return s
+				}
+			}
+			return ""
+		}
+		num := int32(1)
+		noneof := r.Intn(3)
+		for oi := 0; oi < noneof; oi++ {
+			on := pick()
+			if on == "" {
+				break
+			}
+			m.OneofDecl = append(m.OneofDecl, &descriptorpb.OneofDescriptorProto{Name: proto.String(on)})
+		}
+		addField := func(name string, oneof int) {
+			f := &descriptorpb.FieldDescriptorProto{Name: proto.String(name), Number: proto.Int32(num), Label: descriptorpb.FieldDescriptorProto_LABEL_OPTIONAL.Enum(), Type: descriptorpb.FieldDescriptorProto_TYPE_INT32.Enum(), JsonName: proto.String(gen.JSONCamel(name))}
+			num++
+			switch r.Intn(5) {
+			case 0:
+				f.Type = descriptorpb.FieldDescriptorProto_TYPE_STRING.Enum()
+			case 1:
+				if oneof < 0 {
+					f.Label = descriptorpb.FieldDescriptorProto_LABEL_REPEATED.Enum()
+				}
+			case 2:
+				f.Type = descriptorpb.FieldDescriptorProto_TYPE_MESSAGE.Enum()
+				f.TypeName = proto.String(".c42pkg." + m.GetName())
+			}
+			if oneof >= 0 {
+				f.OneofIndex = proto.Int32(int32(oneof))
+			}
+			m.Field = append(m.Field, f)
+		}
+		for fi := 0; fi < nf; fi++ {
+			if s := pick(); s != "" {
+				addField(s, -1)
+			}
+		}
+		for oi := range m.OneofDecl {
+			for k := 0; k < 1+r.Intn(2); k++ {
+				s := pick()
+				if s == "" {
+					s = fmt.Sprintf("fallback_member_%d_%d", oi, k)
+				}
+				addField(s, oi)
+			}
+		}
+		// nested types named like oneof wrapper types / fields
+		if r.Chance(1, 2) && len(m.Field) > 0 {
+			nn := strs.GoCamelCase(m.Field[r.Intn(len(m.Field))].GetName())
+			if token.IsIdentifier(nn) {
+				m.NestedType = append(m.NestedType, &descriptorpb.DescriptorProto{Name: proto.String(nn)})
+			}
+		}
+		if r.Chance(1, 3) {
+			m.EnumType = append(m.EnumType, &descriptorpb.EnumDescriptorProto{Name: proto.String("E" + fmt.Sprint(mi)), Value: []*descriptorpb.EnumValueDescriptorProto{{Name: proto.String("E" + fmt.Sprint(mi) + "_ZERO"), Number: proto.Int32(0)}, {Name: proto.String("FOO"), Number: proto.Int32(1)}}})
+		}
+		fdp.MessageType = append(fdp.MessageType, m)
+	}
+	return fdp
 }
